@@ -17,6 +17,7 @@ import PsutilModel.Proofs.C15Term
 import PsutilModel.Proofs.C15Ext
 import PsutilModel.Proofs.C15R2
 import PsutilModel.Proofs.C15Cost
+import PsutilModel.Proofs.C15R3
 import PsutilModel.Model.C15Gen
 namespace Psutil.C15
 open Spec
@@ -740,8 +741,8 @@ example : ((dedup [1, 2, 3, 2]).length : ℚ) + 2 * ((dedup [1, 2, 3, 2]).length
 
 /-- objects that have never been waited for form a fresh state -/
 example (envOf : Nat → Env) (now : Rat) :
-    Fresh envOf ⟨now, fun pid => ⟨pid, none, 0, none⟩, [], [], [], []⟩ :=
-  ⟨rfl, rfl, fun _ _ h => by cases h⟩
+    Fresh envOf ⟨now, fun pid => ⟨pid, none, 0, none⟩, [], [], [], [], []⟩ :=
+  ⟨rfl, rfl, rfl, fun _ _ h => by cases h⟩
 
 /-- the identity is an admissible iteration order -/
 example : ∀ (k : Nat) (l : List Nat), ((fun _ l => l) k l : List Nat).Perm l := fun _ l => List.Perm.refl l
@@ -967,5 +968,219 @@ example : (waitPidC cfg (fun _ => 1 / 1000) exOther 8 (some 0) 5 0 0 0).2.now = 
   simp [waitPidC, waitLoopC, pollNonChildC, sleepStepC, pastDeadline, hg.check, hg.ge, exOther, CSt.sys,
     CSt.waited, Env.pidExists, Env.ended]
   norm_num
+
+/-! ## third round (audit-driven): integer pids, waitpid flags, ValueError only when justified,
+      LIVENESS, what a callback sees, never-existed under EINTR -/
+
+/-- proof obligation on the translator facts: the first test of `wait_pid` raises ValueError for pid 0
+    and for every negative pid (it was evaluated on sample pids), for no positive one. `pid == 0` /
+    `not pid` / `pid < 0` instead of `pid <= 0` stop this building. -/
+theorem cfg_pid_test :
+    cfg.pidRejectsZero = true ∧ cfg.pidRejectsNeg = true ∧ cfg.pidRejectsPos = false := by decide
+
+/-- proof obligation: `os.waitpid` is called with `os.WNOHANG` (= 1) when a timeout is given and with 0
+    otherwise — no WUNTRACED / WCONTINUED (a stopped child would be reported with a status word the
+    decoding chain answers with ValueError) -/
+theorem cfg_waitpid_flags : cfg.flagsTimeout = 1 ∧ cfg.flagsBlocking = 0 := by decide
+
+/-- proof obligation: in `check_gone` both `proc.returncode = returncode` and `gone.add(proc)` come
+    before `callback(proc)` — the order `markGone` transcribes -/
+theorem cfg_check_gone_order : cfg.rcBeforeCb = true ∧ cfg.goneBeforeCb = true := by decide
+
+/-- what a caller observes of `wait_pid(pid, timeout)` for an integer pid -/
+def obsWaitI (env : Env) (pid : Int) (timeout : Option Rat) (fuel : Nat) (now : Rat) (nWait : Nat) : Obs :=
+  ⟨(waitPidI cfg env pid timeout fuel now nWait).1, (waitPidI cfg env pid timeout fuel now nWait).2.now,
+   (waitPidI cfg env pid timeout fuel now nWait).2.sleeps⟩
+
+/-- a pid ≤ 0 (0, −1 = "any child", −g = a process group) is refused: ValueError at once, no sleep, and
+    no `os.waitpid` call is made (nobody's exit status is consumed) — for every environment -/
+theorem C15_nonpositive_pid_ValueError (env : Env) (pid : Int) (timeout : Option Rat) (fuel : Nat) (now : Rat)
+    (nWait : Nat) :
+    nonPositivePidRefused pid now (obsWaitI env pid timeout fuel now nWait) ∧
+    (pid ≤ 0 → (waitPidI cfg env pid timeout fuel now nWait).2.nWait = nWait) := by
+  constructor
+  · intro hp
+    simp [obsWaitI, waitPidI_nonpos cfg_pid_test.1 cfg_pid_test.2.1 env pid timeout fuel now nWait hp]
+  · intro hp
+    simp [waitPidI_nonpos cfg_pid_test.1 cfg_pid_test.2.1 env pid timeout fuel now nWait hp]
+
+/-- on natural-number pids the integer-pid model (the one the driver runs, with the pid test as the
+    translator found it) is `wait_pid` of all the theorems above; the same for `Process.wait` -/
+theorem C15_wait_pid_int_is_wait_pid (env : Env) (n : Nat) (timeout : Option Rat) (fuel : Nat) (now : Rat)
+    (nWait : Nat) (p : PObj) :
+    obsWaitI env (n : Int) timeout fuel now nWait = obsWait env n timeout fuel now nWait ∧
+    procWaitI cfg env timeout fuel now p = procWait cfg env timeout fuel now p := by
+  constructor
+  · simp [obsWaitI, obsWait, waitPidI_nat cfg_pid_test.1 cfg_pid_test.2.2]
+  · exact procWaitI_eq cfg_pid_test.1 cfg_pid_test.2.2 env timeout fuel now p
+
+/-- ValueError is raised only for PID 0 or for a child that HAS ended with a status word that is no
+    termination report (which the kernel hands out only under WUNTRACED / WCONTINUED — flags
+    `cfg_waitpid_flags` shows are not used); never for a process that is still running -/
+theorem C15_valueError_justified (env : Env) (pid : Nat) (timeout : Option Rat) (fuel : Nat) (now : Rat)
+    (nWait : Nat) :
+    valueErrorJustified ⟨env, pid, timeout, now⟩ (obsWait env pid timeout fuel now nWait) := by
+  intro h
+  rcases waitPid_valueError cfg_good env pid timeout fuel now nWait h with hp | ⟨st, hk, hd, he⟩
+  · exact Or.inl hp
+  · right; right
+    simp only [hk]
+    exact ⟨decode_valueError_notTermination hd, he⟩
+
+/-- … and by `Process.wait` additionally for a negative timeout, whatever the object has stored -/
+theorem C15_valueError_justified_process_wait (env : Env) (timeout : Option Rat) (fuel : Nat) (now : Rat)
+    (p : PObj) :
+    valueErrorJustified ⟨env, p.pid, timeout, now⟩ (obsProc env timeout fuel now p) := by
+  intro h
+  by_cases hn : negative timeout = true
+  · exact Or.inr (Or.inl hn)
+  · have hn' : negative timeout = false := by simpa using hn
+    cases hc : p.exitcode with
+    | some v =>
+      simp only [obsProc, procWait_cached env timeout fuel now p v hc hn'] at h
+      cases v <;> cases h
+    | none =>
+      have e := C15_process_wait_is_wait_pid env timeout fuel now p hc hn'
+      rw [e] at h ⊢
+      exact C15_valueError_justified env p.pid timeout fuel now p.nWait h
+
+/-- LIVENESS without a timeout: if the interruptions stop (no waitpid call with index ≥ K is
+    interrupted) and the process ends at some instant `e` (or never existed), then with
+    fuel ≥ (K − nWait) + ⌈(e − now)/0.1 ms⌉ + 1 the call RETURNS: the decoded status of a child, None
+    otherwise — which is the answer the property promises unless the child's status word is no
+    termination report. Not outOfFuel, not a blocked waitpid, not an exception. -/
+theorem C15_liveness_no_timeout (env : Env) (pid : Nat) (fuel : Nat) (now : Rat) (nWait : Nat) (hp : 0 < pid)
+    (K : Nat) (hK : ∀ n, K ≤ n → env.eintr n = false) (e : Rat)
+    (hx : env.kind = .neverExisted ∨ env.exitAt = some e)
+    (hf : (K - nWait) + ⌈(e - now) * 10000⌉₊ + 1 ≤ fuel) :
+    (obsWait env pid none fuel now nWait).out = expectedOut env ∧
+    ((∀ st, env.kind = .child st → ¬ notTermination st) →
+      answered env (obsWait env pid none fuel now nWait).out) := by
+  have h1 : (obsWait env pid none fuel now nWait).out = expectedOut env := by
+    simp only [obsWait]
+    rw [waitPid_pos env pid none fuel now nWait hp]
+    apply waitLoop_live cfg_good env pid _ K hK e hx ⌈(e - now) * 10000⌉₊ fuel
+    · show Spec.i0 ≤ cfg.i0
+      rw [cfg_good.i0_eq]
+    · exact hf
+    · show e - now ≤ ((⌈(e - now) * 10000⌉₊ : ℕ) : ℚ) * Spec.i0
+      have := Nat.le_ceil ((e - now) * 10000)
+      simp only [Spec.i0]
+      linarith
+  refine ⟨h1, fun hterm => ?_⟩
+  rw [h1]
+  rcases answered_expectedOut env with h | ⟨st, hk, hn⟩
+  · exact h
+  · exact absurd hn (hterm st hk)
+
+/-- LIVENESS with a timeout: a process that has ended by the deadline is answered (decoded status /
+    None) — not TimeoutExpired, not outOfFuel — when the wait's last waitpid call was not interrupted
+    (finding C15-eintr-deadline) and fuel ≥ ⌈τ/0.1 ms⌉ + 2 -/
+theorem C15_liveness_with_timeout (env : Env) (pid : Nat) (τ : Rat) (fuel : Nat) (now : Rat) (nWait : Nat)
+    (hp : 0 < pid) (hend : endedBy env (now + τ))
+    (hne : env.eintr (lastCall env pid (some τ) fuel now nWait) = false)
+    (hf : ⌈τ * 10000⌉₊ + 2 ≤ fuel) :
+    (obsWait env pid (some τ) fuel now nWait).out = expectedOut env ∧
+    ((∀ st, env.kind = .child st → ¬ notTermination st) →
+      answered env (obsWait env pid (some τ) fuel now nWait).out) := by
+  have hcb := C15_terminates_with_timeout env pid τ fuel now nWait hf rfl
+  have hnt := C15_timeout_sound_ended_before_deadline env pid τ fuel now nWait hend hne
+  have h1 : (obsWait env pid (some τ) fuel now nWait).out = expectedOut env := by
+    have hs := waitPid_shape cfg_good env pid (some τ) fuel now nWait
+    simp only [obsWait] at hcb hnt ⊢
+    rcases hs with h | h | ⟨sec, p, h⟩ | ⟨h0, _⟩ | ⟨st, hk, h⟩ | ⟨hk, h⟩
+    · exact absurd h hcb.2
+    · exact absurd h hcb.1
+    · exact absurd h (hnt sec p)
+    · omega
+    · rw [h]; simp [expectedOut, hk]
+    · rw [h]; unfold expectedOut
+      cases hk' : env.kind with
+      | child st => exact absurd hk' (hk st)
+      | nonChild => rfl
+      | neverExisted => rfl
+  refine ⟨h1, fun hterm => ?_⟩
+  rw [h1]
+  rcases answered_expectedOut env with h | ⟨st, hk, hn⟩
+  · exact h
+  · exact absurd hn (hterm st hk)
+
+/-- non-vacuity of the liveness hypotheses: a child that exits with code 3 at instant 5, first two
+    waitpid calls interrupted, asked at instant 0 without a timeout, fuel 50 003 -/
+example : ∃ env : Env, (∀ n, 2 ≤ n → env.eintr n = false) ∧ env.exitAt = some 5 ∧
+    (2 - 0) + ⌈((5 : ℚ) - 0) * 10000⌉₊ + 1 ≤ 50003 ∧ expectedOut env = .code 3 := by
+  refine ⟨⟨.child 768, some 5, fun n => decide (n < 2)⟩, ?_, rfl, ?_, ?_⟩
+  · intro n hn; simp; omega
+  · norm_num
+  · simp [expectedOut, decode, wifexited, wtermsig, wexitstatus]
+
+/-- what every callback invocation finds on the object it is handed: `returncode` ALREADY set — to the
+    value of the cause (a child) / None (not a child) — and the process ALREADY in `gone`; one
+    invocation per entry of the callback log. (A callback that prints `proc.returncode`, as in the
+    documentation's example, never meets a missing attribute.) -/
+theorem C15_callback_sees_returncode (envOf : Nat → Env) (procs : List Nat) (timeout : Option Rat)
+    (hasCb : Bool) (order : Nat → List Nat → List Nat) (fuel : Nat) (w w' : WP) (alive' : List Nat)
+    (hperm : ∀ k l, (order k l).Perm l) (hf : Fresh envOf w)
+    (h : waitProcs cfg envOf procs timeout hasCb order fuel w = .ok (w', alive')) :
+    callbackSees ⟨envOf, procs, timeout, w.now, hasCb⟩ w'.cbSeen w'.cbLog ∧
+    ∀ e ∈ w'.cbSeen, e.inGone = true := by
+  obtain ⟨⟨hi, _, _⟩, _, _, _⟩ :=
+    waitProcs_inv cfg_good envOf hasCb fuel order hperm procs timeout w w' alive' hf h
+  refine ⟨⟨hi.seenPids, fun e he => ?_⟩, fun e he => (hi.seen e he).1⟩
+  obtain ⟨_, v, hv, r1, r2⟩ := hi.seen e he
+  rw [hv]
+  simp only
+  cases hk : (envOf e.pid).kind with
+  | child st =>
+    simp only
+    intro cause hm hs
+    cases v with
+    | none => exact absurd (isChild_iff.2 ⟨st, hk⟩) (r2 rfl)
+    | some cc =>
+      obtain ⟨st', hk', hd⟩ := r1 cc rfl
+      rw [hk] at hk'; cases hk'
+      have := decode_status (mem_allCauses.1 hm)
+      rw [hs, hd] at this
+      cases this; rfl
+  | nonChild =>
+    simp only
+    cases v with
+    | none => rfl
+    | some cc => obtain ⟨st', hk', _⟩ := r1 cc rfl; rw [hk] at hk'; cases hk'
+  | neverExisted =>
+    simp only
+    cases v with
+    | none => rfl
+    | some cc => obtain ⟨st', hk', _⟩ := r1 cc rfl; rw [hk] at hk'; cases hk'
+
+/-- moving the callback in front of `proc.returncode = …` and/or `gone.add(proc)` leaves every FINAL
+    observable of `markGone` unchanged (objects, gone, callback log, clock) — which is why only the
+    callback-time view `cbSeen` (and the obligation `cfg_check_gone_order`) can tell the orders apart -/
+theorem C15_check_gone_order_final_state (rcFirst goneFirst hasCb : Bool) (w : WP) (pid : Nat) (v : Option Int) :
+    let a := markGoneO rcFirst goneFirst hasCb w pid v
+    let b := markGone hasCb w pid v
+    a.objs = b.objs ∧ a.gone = b.gone ∧ a.cbLog = b.cbLog ∧ a.now = b.now ∧
+    (rcFirst = true → goneFirst = true → a = b) := by
+  cases rcFirst <;> cases goneFirst <;> cases hasCb <;>
+    simp [markGoneO, markGone, stepCallback, stepAddGone, stepSetRc]
+
+/-- FULL statement of "at once if the PID never existed" over the stated quantifier (EINTR delivered to
+    any waitpid call). FALSE of the code: see the counterexample. -/
+def C15_never_existed_at_once_Full : Prop :=
+  ∀ (env : Env) (pid : Nat) (timeout : Option Rat) (fuel : Nat) (now : Rat) (nWait : Nat),
+    0 < pid → 1 ≤ fuel →
+    neverExistedAtOnce ⟨env, pid, timeout, now⟩ (obsWait env pid timeout fuel now nWait) true
+
+/-- counterexample (finding C15-eintr-never-existed, replayed on the real code by the harness): the first
+    `os.waitpid` is interrupted → `sleep(0.0001)` runs before the second call says ECHILD: None comes
+    0.1 ms late, after one sleep. `C15_never_existed_at_once` is the part that holds (first call not
+    interrupted). -/
+theorem C15_never_existed_at_once_counterexample : ¬ C15_never_existed_at_once_Full := by
+  intro h
+  have h1 := h neverEintrEnv 7 none 5 0 0 (by decide) (by decide) rfl rfl
+  have h2 := (neverEintr_run cfg_good).2
+  simp only [obsWait] at h1
+  rw [h2] at h1
+  simp at h1
 
 end Psutil.C15
